@@ -271,6 +271,22 @@ Fixpoint nodup_strs (l : list string) : bool :=
    lookup table (and every step needs an execute entry).  Result: the component scopes in the order
    they are entered = the insertion order of scopes.scopes restricted to components.
    anc = the templates of the enclosing workflows (cycle check); fuel = nesting depth. *)
+Definition children (steps : list (string * string)) (comps : list string)
+           (vis : string -> string -> option (list (list string * string))) :=
+  fix go (ts : list string) : option (list (list string * string) * list (list string * string)) :=
+    match ts with
+    | [] => Some ([], [])
+    | t :: r =>
+        match lookup t steps with
+        | None => None
+        | Some tn =>
+            match vis t tn, go r with
+            | Some a, Some (cs, ws) => if mem tn comps then Some (cs ++ a, ws) else Some (cs, a ++ ws)
+            | _, _ => None
+            end
+        end
+    end.
+
 Fixpoint visit (fuel : nat) (d : ns) (anc : list string) (loc : list string) (tname : string)
   : option (list (list string * string)) :=
   match fuel with
@@ -283,20 +299,8 @@ Fixpoint visit (fuel : nat) (d : ns) (anc : list string) (loc : list string) (tn
                if mem tname anc || negb (nodup_strs (wf_exec w)) ||
                   negb (forallb (fun kv => mem (fst kv) (wf_exec w)) (wf_steps w)) then None
                else
-                 match (fix go (ts : list string) : option (list (list string * string) * list (list string * string)) :=
-                          match ts with
-                          | [] => Some ([], [])
-                          | t :: r =>
-                              match lookup t (wf_steps w) with
-                              | None => None
-                              | Some tn =>
-                                  match visit f d (tname :: anc) (loc ++ [t]) tn, go r with
-                                  | Some a, Some (cs, ws) =>
-                                      if mem tn (ns_comps d) then Some (cs ++ a, ws) else Some (cs, a ++ ws)
-                                  | _, _ => None
-                                  end
-                              end
-                          end) (wf_exec w) with
+                 match children (wf_steps w) (ns_comps d)
+                                (fun t tn => visit f d (tname :: anc) (loc ++ [t]) tn) (wf_exec w) with
                  | Some (cs, ws) => Some (cs ++ ws)
                  | None => None
                  end
